@@ -302,11 +302,19 @@ fn run(eng: &Engine, a: &Args) {
         long.push(Case { chain: chain.clone(), start: s, end: e, cb, layout: None, verify: false, pause: false, nofile: None, pruned: false });
     }
     eng.enumerate("chain-longer-than-2^16", long, check);
+    // per-block output of more than 4 MB in one run (60 000 OP_RETURN outputs over 48 blocks): the range result must
+    // still be the slice of the whole-chain result, line for line
+    let scripts: Vec<Vec<u8>> = (0..60_000usize).map(|i| { let n = 60 + i % 16; let mut s = vec![0x6a, n as u8]; s.extend((0..n).map(|k| b'a' + ((i + k * 11) % 26) as u8)); s }).collect();
+    let chain = vpmodel::spec::chain_from_scripts(Coin::Bitcoin, &scripts, &[0, 546], 5, 250, 0, 1_400_000_000);
+    eng.enumerate("opreturn-more-than-4MB", vec![
+        Case { chain: chain.clone(), start: Some(20), end: Some(29), cb: Callback::OpReturn, layout: None, verify: false, pause: false, nofile: None, pruned: false },
+        Case { chain, start: None, end: Some(47), cb: Callback::OpReturn, layout: None, verify: false, pause: false, nofile: None, pruned: false },
+    ], check);
 }
 
 fn replay(part: &str, case: serde_json::Value) -> Option<Verdict> {
     match part {
-        "exhaustive-small-T" | "random-ranges" | "progress-line-due" | "thousand-blk-files" | "chain-longer-than-2^16" => Some(check(&serde_json::from_value(case).ok()?)),
+        "exhaustive-small-T" | "random-ranges" | "progress-line-due" | "thousand-blk-files" | "chain-longer-than-2^16" | "opreturn-more-than-4MB" => Some(check(&serde_json::from_value(case).ok()?)),
         _ => None,
     }
 }
